@@ -199,3 +199,35 @@ def bool_switches(P, body, match):
 
 def edge_dominated(cfg, edges, bb):
     return any(cfg.edge_dominates(e, bb) for e in edges)
+
+
+def body_consts(body):
+    """every constant operand of a body: yields (bb, const dict, span)"""
+    for bb, idx, st in body.stmts():
+        rv = st.get("rv")
+        if not rv:
+            continue
+        ops = []
+        k = rv["k"]
+        if k in ("use", "cast", "repeat"):
+            ops = [rv["op"]]
+        elif k == "bin":
+            ops = [rv["a"], rv["b"]]
+        elif k == "un":
+            ops = [rv["a"]]
+        elif k == "agg":
+            ops = rv["ops"]
+        for o in ops:
+            if "k" in o:
+                yield bb, o["k"], st.get("sp", body.span)
+    for bb, tm in body.terms():
+        if tm["k"] == "call":
+            for o in tm["args"]:
+                if "k" in o:
+                    yield bb, o["k"], tm["sp"]
+        elif tm["k"] == "switch" and "k" in tm["discr"]:
+            yield bb, tm["discr"]["k"], body.span
+
+
+def body_strings(body):
+    return [k["str"] for _, k, _ in body_consts(body) if "str" in k]
